@@ -997,6 +997,29 @@ impl Worker {
                 let st = if o.contains("ALIGNDEP") { "align" } else { "ok" };
                 (st.into(), o, total)
             }
+            // only reachable through a replay line `c04.nocrash x selftest <what>`: exercises the parent's watchdog
+            "selftest" if tok.len() >= 3 => match tok[2] {
+                "hang" => loop {
+                    std::thread::sleep(Duration::from_secs(1));
+                },
+                "overflow" => {
+                    fn rec(n: u64) -> u64 {
+                        let a = [n; 64];
+                        if n == 0 { 0 } else { rec(n - 1) + std::hint::black_box(a)[7] }
+                    }
+                    ("ok".into(), format!("selftest={}", rec(u64::MAX / 2)), 0)
+                }
+                "abort" => std::process::abort(),
+                "panic" => {
+                    let r = self.st.call(CV, 0, "selftest", || -> Result<usize, UnmarshalError> { panic!("selftest panic") });
+                    ("ok".into(), format!("selftest={}", oc(r, |n| n.to_string())), 0)
+                }
+                "alloc" => {
+                    let r = self.st.call(CV, 0, "selftest", || Ok::<usize, UnmarshalError>(Vec::<u8>::with_capacity(1 << 24).capacity()));
+                    ("ok".into(), format!("selftest={}", oc(r, |n| n.to_string())), 0)
+                }
+                _ => ("ok".into(), "selftest=ok".into(), 0),
+            },
             _ => ("ok".into(), "badcase".into(), 0),
         }
     }
@@ -1335,7 +1358,7 @@ impl Gen {
 
     // ---- (1) valid encodings, single-byte corruptions, truncations ------------------------------
     fn fam_cat(&mut self) {
-        let rounds = if self.thorough { 2 } else { 1 };
+        let rounds = if self.thorough { 3 } else { 1 };
         for round in 0..rounds {
             let vals = self.catalogue_values();
             for (i, (ty, val)) in vals.iter().enumerate() {
@@ -1365,8 +1388,8 @@ impl Gen {
                 for l in 0..e.buf.len() {
                     muts.push(e.buf[..l].to_vec());
                 }
-                let all = self.thorough && round == 0 && i % 3 == 0;
-                let cap = if all { 500 } else if self.thorough { 24 } else { 10 };
+                let all = self.thorough && round == 0;
+                let cap = if all { 500 } else if self.thorough { 32 } else { 24 };
                 if muts.len() > cap {
                     // a random subset, without replacement
                     for k in 0..cap {
@@ -1537,7 +1560,7 @@ impl Gen {
 
     // ---- (4) random bytes under random signatures, random values with flips -----------------------
     fn fam_rand(&mut self) {
-        let n = if self.thorough { 12_000 } else { 1_200 };
+        let n = if self.thorough { 30_000 } else { 3_000 };
         for _ in 0..n {
             let d = self.rng.range(0, 3) as usize;
             let allow_fd = self.rng.chance(1, 10);
@@ -1856,7 +1879,7 @@ impl Gen {
             for l in 0..m.len() {
                 muts.push(m[..l].to_vec());
             }
-            let cap = if self.thorough { 700 } else { 60 };
+            let cap = if self.thorough { 700 } else { 150 };
             if muts.len() > cap {
                 for k in 0..cap {
                     let j = k + self.rng.below((muts.len() - k) as u64) as usize;
@@ -1888,7 +1911,7 @@ impl Gen {
             }
         }
         // random bytes behind a plausible fixed header
-        let n = if self.thorough { 6000 } else { 500 };
+        let n = if self.thorough { 10_000 } else { 1_500 };
         for _ in 0..n {
             let bo = *self.rng.pick(&ORDERS);
             let flen = self.rng.range(0, 60) as usize;
@@ -2316,7 +2339,7 @@ impl<'a> Eval<'a> {
 
 fn rule_text() -> String {
     format!(
-        "inputs: (1) every catalogue type's generated value encoded by an independent encoder + single-byte corruptions (0x00, 0xff, +1, random; all positions for a third of the types in the thorough tier, a random subset otherwise) + truncations; (2) nesting bombs: towers of variants / arrays / structs / dict entries in 13 patterns to depth 10..130 around the limits 32 and 64, the same inside a{{sv}}, in a message body and in an unknown header field, 255-character variant signatures, generated towers of 10^3..10^6 levels (crash-only); (3) declared lengths 2^26, 2^26+1, 2^26+8, 2^31, 2^32-1, 2^32-8, remaining+1, remaining in every length field of valid encodings, in body_len and the header field array, arrays that really hold 2^26 and 2^26+1/+8 bytes; (4) random bytes under random valid signatures, random values with bit flips, 20-80 KB values; (5) typed gets under mutated signatures (shorter / longer / reordered structs, other element types), derived structs and enums against a pool of signatures, has_sig of every type against the pool; Cow<[E]>/Vec<E>/&[u8] for 9 element types x offsets 0..7 x lengths that are and are not multiples of the element size; raw messages (valid, every corruption of the header, invalid signature strings in the SIGNATURE field, random header fields). Every case runs in two worker processes (release build; relcheck build = debug assertions + overflow checks, std's unsafe precondition checks abort), on a 2 MiB stack under catch_unwind, at all 8 alignments of the buffer, both byte orders by generation. Entry points: validate_marshalled, unmarshal_with_sig, Unmarshal::unmarshal of every table type with the signature (326 catalogue types + 38 borrowed / derived / macro types), MarshalledMessageBody::validate, parser().get_param loop, get::<T> for all 364 types, get2 (64 pairs), get3 (40 triples), Variant::get, unmarshall_all, sigs_left / get_next_sig, has_sig, unmarshal_header + unmarshal_dynamic_header + unmarshal_next_message. Violation: worker death (signal), hang (no answer in 30 s), caught panic, result differing between alignments or builds, decoders disagreeing on accept/consumed, peak live bytes or largest single allocation of one call above 64 KiB + K x input length with K = {} for validating calls, {} for typed / header calls, {} for calls that build a Param tree, one call longer than 5 s + 1 us/byte. c04.dec / c04.body / c04.slice observations are compared with the Lean model; distinct by request text",
+        "inputs: (1) every catalogue type's generated value encoded by an independent encoder + single-byte corruptions (0x00, 0xff, +1, random; all positions (up to 500 per value) for one value of every type in the thorough tier, a random subset of 24-32 otherwise) + truncations; (2) nesting bombs: towers of variants / arrays / structs / dict entries in 13 patterns to depth 10..130 around the limits 32 and 64, the same inside a{{sv}}, in a message body and in an unknown header field, 255-character variant signatures, generated towers of 10^3..10^6 levels (crash-only); (3) declared lengths 2^26, 2^26+1, 2^26+8, 2^31, 2^32-1, 2^32-8, remaining+1, remaining in every length field of valid encodings, in body_len and the header field array, arrays that really hold 2^26 and 2^26+1/+8 bytes; (4) random bytes under random valid signatures, random values with bit flips, 20-80 KB values; (5) typed gets under mutated signatures (shorter / longer / reordered structs, other element types), derived structs and enums against a pool of signatures, has_sig of every type against the pool; Cow<[E]>/Vec<E>/&[u8] for 9 element types x offsets 0..7 x lengths that are and are not multiples of the element size; raw messages (valid, every corruption of the header, invalid signature strings in the SIGNATURE field, random header fields). Every case runs in two worker processes (release build; relcheck build = debug assertions + overflow checks, std's unsafe precondition checks abort), on a 2 MiB stack under catch_unwind, at all 8 alignments of the buffer, both byte orders by generation. Entry points: validate_marshalled, unmarshal_with_sig, Unmarshal::unmarshal of every table type with the signature (326 catalogue types + 38 borrowed / derived / macro types), MarshalledMessageBody::validate, parser().get_param loop, get::<T> for all 364 types, get2 (64 pairs), get3 (40 triples), Variant::get, unmarshall_all, sigs_left / get_next_sig, has_sig, unmarshal_header + unmarshal_dynamic_header + unmarshal_next_message. Violation: worker death (signal), hang (no answer in 30 s), caught panic, result differing between alignments or builds, decoders disagreeing on accept/consumed, peak live bytes or largest single allocation of one call above 64 KiB + K x input length with K = {} for validating calls, {} for typed / header calls, {} for calls that build a Param tree, one call longer than 5 s + 1 us/byte. c04.dec / c04.body / c04.slice observations are compared with the Lean model; distinct by request text",
         ALLOC_K[0], ALLOC_K[1], ALLOC_K[2]
     )
 }
@@ -2418,5 +2441,13 @@ pub fn run(cfg: &Cfg) {
     out.extra("table_types", build_table().len().to_string());
     out.extra("alloc_bound", json_str(&format!("64 KiB + K x input length, K = {:?} (validating, typed/header, Param tree)", ALLOC_K)));
     let _ = std::fs::remove_file(&casefile);
+    if let Ok(rd) = std::fs::read_dir(&cfg.outdir) {
+        for e in rd.flatten() {
+            let name = e.file_name().to_string_lossy().to_string();
+            if name.starts_with("worker_") && name.ends_with(".err") && e.metadata().map(|m| m.len() == 0).unwrap_or(false) {
+                let _ = std::fs::remove_file(e.path());
+            }
+        }
+    }
     out.finish(&rule_text(), false);
 }
